@@ -96,6 +96,18 @@ fn case(cfg: &Config, tmp: &Path, idx: u64, r: &mut Rng, st: &mut Stats) {
             pool.push((format!("{}\nassumption: #false.", t.ug), "ug"));
         }
     }
+    if strong {
+        // strong equivalence uses the first two programs whatever else is around
+        if r.chance(1, 3) {
+            pool.push(("spec: forall X (X = X).".to_string(), "spec"));
+        }
+        if r.chance(1, 4) {
+            pool.push((t.ug.clone(), "ug"));
+        }
+        if r.chance(1, 4) {
+            pool.push(("lemma: forall X (X = X).".to_string(), "po"));
+        }
+    }
     if r.chance(1, 3) {
         // a third program that must be ignored
         pool.push(("zzz(1).".to_string(), "lp"));
@@ -113,7 +125,7 @@ fn case(cfg: &Config, tmp: &Path, idx: u64, r: &mut Rng, st: &mut Stats) {
         loop {
             let dir = dirs[r.upto(dirs.len())];
             let name = names[r.upto(names.len())];
-            let rel = if ext.is_empty() { format!("{name}") } else { format!("{name}.{ext}") };
+            let rel = if ext.is_empty() { format!("noext-{name}") } else { format!("{name}.{ext}") };
             let rel = if dir.is_empty() { rel } else { format!("{dir}/{rel}") };
             if used.contains(&rel) {
                 continue;
